@@ -551,11 +551,7 @@ def run_scenario(sc: Dict[str, Any], clock_plan: Optional[str] = None, max_evals
                     raise seams.SimAbort("harness: node not found")
                 return i
 
-            # symmetry followers are placed at the exact mirror image first
             pre_moves = {}
-            for lk in sc["links"]:
-                if lk["type"] == "symmetry":
-                    pre_moves[index_of(lk["follower"])] = np.array(lk["follower_at"])
             clamps = []
             for spec in sc["clamps"]:
                 i = index_of(spec["node"])
@@ -567,6 +563,13 @@ def run_scenario(sc: Dict[str, Any], clock_plan: Optional[str] = None, max_evals
                     continue
                 clamps.append((spec, i, c, pos[i].copy()))
                 pre_moves[i] = np.array(c.position, dtype=float)  # snapped onto the manifold
+            # symmetry followers are placed at the exact mirror image of their leader (where the leader
+            # really is: on its clamp's snapped position) before the optimizer sees the model
+            for lk in sc["links"]:
+                if lk["type"] == "symmetry":
+                    li_ = index_of(lk["leader"])
+                    lead = pre_moves.get(li_, pos[li_])
+                    pre_moves[index_of(lk["follower"])] = mirror_pt(lead, np.array(lk["normal"]), np.array(lk["origin"]))
             # apply pre-moves to the model, then create the optimizer from it
             if mesh is not None:
                 for i, p in pre_moves.items():
